@@ -5,9 +5,13 @@ import (
 	"errors"
 	"fmt"
 	"sort"
+	"strings"
 
+	"github.com/thomasjungblut/go-sstables/recordio"
+	rProto "github.com/thomasjungblut/go-sstables/recordio/proto"
 	"github.com/thomasjungblut/go-sstables/skiplist"
 	"github.com/thomasjungblut/go-sstables/sstables"
+	"google.golang.org/protobuf/proto"
 	"verif/internal/core"
 )
 
@@ -26,6 +30,7 @@ type c11Case struct {
 	OnlyF   []c11Flt `json:"only_faults,omitempty"`
 	OnlyO   string   `json:"only_op,omitempty"`
 	Sys     *c11Sys  `json:"sys,omitempty"`
+	WF      *c11WF   `json:"wf,omitempty"`
 	NoPairs bool     `json:"no_pairs,omitempty"`
 }
 
@@ -105,6 +110,20 @@ func (c c11) Run(ctx *core.Ctx) error {
 	ctx.Ev.Bounds["max_tables"] = maxK
 	ctx.Ev.Bounds["fault_pairs_up_to_tables"] = map[bool]int{false: 2, true: 3}[ctx.Tier == "thorough"]
 	ctx.Ev.Assume = []string{"component half only: faults are injected at the iterator / stream-writer interfaces the merger takes; flush and compaction at system level are covered by the syscall fault injector"}
+	// the real stream writer with failing underlying writers, including failures that only surface in Close
+	// (the final buffer flush): at least one call must return an error, or the table must be complete
+	for n := 1; n <= 3; n++ {
+		for _, site := range []string{"dataWrite", "indexWrite", "dataClose", "indexClose"} {
+			for at := 0; at < n; at++ {
+				if strings.HasSuffix(site, "Close") && at > 0 {
+					continue
+				}
+				for _, real := range []bool{true, false} {
+					cases = append(cases, core.J(c11Case{WF: &c11WF{N: n, Site: site, At: at, RealClose: real}}))
+				}
+			}
+		}
+	}
 	rs := ctx.Pmap(cases)
 	ctx.Fold(rs, cases)
 	for i, r := range rs {
@@ -120,6 +139,9 @@ func (c c11) Case(w *core.WCtx, payload json.RawMessage) core.Result {
 	json.Unmarshal(payload, &cs)
 	if cs.Sys != nil {
 		return c.sysCase(w, cs.Sys)
+	}
+	if cs.WF != nil {
+		return c.wfCase(w, cs.WF)
 	}
 	var r core.Result
 	var lists [][]int
@@ -287,4 +309,134 @@ func (c c11) checkList(list []int, cs c11Case, r *core.Result) {
 	}
 	sort.Strings(r.Keys)
 	r.Keys = uniq(r.Keys)
+}
+
+// ---- real stream writer under write/close faults
+
+type c11WF struct {
+	N         int    `json:"n"`
+	Site      string `json:"site"`
+	At        int    `json:"at"`
+	RealClose bool   `json:"real_close"` // a failing Close still closes the file (reports a late flush error) or not
+}
+
+type wfData struct {
+	recordio.WriterI
+	failWriteAt int
+	writes      int
+	failClose   bool
+	realClose   bool
+}
+
+func (f *wfData) Write(b []byte) (uint64, error) {
+	n := f.writes
+	f.writes++
+	if n == f.failWriteAt {
+		return 0, errC11
+	}
+	return f.WriterI.Write(b)
+}
+func (f *wfData) Close() error {
+	if f.failClose {
+		if f.realClose {
+			f.WriterI.Close()
+		}
+		return errC11
+	}
+	return f.WriterI.Close()
+}
+
+type wfIndex struct {
+	rProto.WriterI
+	failWriteAt int
+	writes      int
+	failClose   bool
+	realClose   bool
+}
+
+func (f *wfIndex) Write(m proto.Message) (uint64, error) {
+	n := f.writes
+	f.writes++
+	if n == f.failWriteAt {
+		return 0, errC11
+	}
+	return f.WriterI.Write(m)
+}
+func (f *wfIndex) Close() error {
+	if f.failClose {
+		if f.realClose {
+			f.WriterI.Close()
+		}
+		return errC11
+	}
+	return f.WriterI.Close()
+}
+
+func (c c11) wfCase(w *core.WCtx, cs *c11WF) core.Result {
+	var r core.Result
+	dir := w.Dir()
+	name := fmt.Sprintf("stream writer, %d records, fault at %s #%d (file closed anyway: %v)", cs.N, cs.Site, cs.At, cs.RealClose)
+	viol := func(f string, a ...any) {
+		r.Viol = append(r.Viol, core.Violation{Sig: "", Desc: name + ": " + fmt.Sprintf(f, a...), Case: core.J(c11Case{WF: cs})})
+	}
+	defer func() {
+		if p := recover(); p != nil {
+			viol("panic: %v", p)
+		}
+	}()
+	wr, err := sstables.NewSSTableStreamWriter(sstables.WriteBasePath(dir), sstables.WithKeyComparator(skiplist.BytesComparator{}), sstables.WriteBufferSizeBytes(4096))
+	if err != nil {
+		viol("writer: %v", err)
+		return r
+	}
+	if err := wr.Open(); err != nil {
+		viol("open: %v", err)
+		return r
+	}
+	fd := &wfData{failWriteAt: -1, realClose: cs.RealClose}
+	fi := &wfIndex{failWriteAt: -1, realClose: cs.RealClose}
+	switch cs.Site {
+	case "dataWrite":
+		fd.failWriteAt = cs.At
+	case "indexWrite":
+		fi.failWriteAt = cs.At
+	case "dataClose":
+		fd.failClose = true
+	case "indexClose":
+		fi.failClose = true
+	}
+	sstables.VerifWrapWriters(wr, func(d recordio.WriterI) recordio.WriterI { fd.WriterI = d; return fd }, func(i rProto.WriterI) rProto.WriterI { fi.WriterI = i; return fi })
+	var want []kv
+	anyErr := false
+	for i := 0; i < cs.N; i++ {
+		e := kv{[]byte(fmt.Sprintf("k%d", i)), []byte(fmt.Sprintf("value-%d", i))}
+		if err := wr.WriteNext(e.K, e.V); err != nil {
+			anyErr = true
+		} else {
+			want = append(want, e)
+		}
+		r.Trans++
+	}
+	if err := wr.Close(); err != nil {
+		anyErr = true
+	}
+	r.Traces++
+	r.Evals++
+	r.Key = core.HashKey(name)
+	if !anyErr {
+		// nothing was reported: then the table must be complete
+		rd, err := openTable(dir, tblR{RBuf: 4096})
+		if err != nil {
+			viol("every WriteNext and Close returned nil although an append/flush failed, and the table is unreadable: %v", err)
+			return r
+		}
+		defer rd.Close()
+		it, _ := rd.Scan()
+		got, err := drain(it, 10)
+		if err != nil || !kvsEq(got, want) {
+			viol("every WriteNext and Close returned nil although an append/flush failed; table holds %s,%v of %s", kvsStr(got), err, kvsStr(want))
+		}
+	}
+	r.Outcome = "wf " + cs.Site
+	return r
 }
